@@ -9,6 +9,10 @@ def main() -> int:
     with tempfile.TemporaryDirectory() as d:
         junit = os.path.join(d, "junit.xml")
         cmd = base["cmd"].replace("<file>", junit)
+        repo = os.environ.get("VERIF_REPO")
+        if repo:  # run the same suite in a scratch worktree (used while developing a fix)
+            cmd = cmd.replace("cd /repo", f"cd {repo}")
+            env["PYTHONPATH"] = repo
         p = subprocess.run(cmd, shell=True, env=env, capture_output=True, text=True)
         passed = set()
         for tc in ET.parse(junit).getroot().iter("testcase"):
